@@ -1,11 +1,100 @@
-import BroodModel.Serde
+/-
+  C11 — Deserializing untrusted input yields an error or a fully valid world.
+
+  `Serde.deserialize` is a token-level model of `World::deserialize` and every visitor under it
+  (archetypes sequence with the unique-identifier check, archetype newtype with its identifier
+  bytes + padding check, row-wise and column-wise bodies, entity identifiers as struct or
+  sequence, the allocator's `from_serialized_parts` with its four rejection reasons, resources)
+  over `serde_assert`'s token vocabulary and framing rules.  The correspondence check feeds the
+  very token stream the real deserializer reads — well-formed or mutated — to this model and
+  compares verdict (ok / error kind) and resulting world.
+
+  The theorem quantifies over **every** token list, both encodings, every registry size and every
+  resource count: no assumption that the input came from `serialize`.
+
+  Not modelled (decided on the real code by the harness's drop ledger and allocator audit): the
+  values and buffers a *failing* deserialization has already built when it bails out.
+-/
+import BroodModel.Lemmas.DeInv
+
 namespace Brood
 open Serde
-/-- The serialization of the empty world deserializes (both encodings). -/
-theorem C11_empty_roundtrip (k : Kinds) (hr : Bool) (n e next : Nat) :
-    (deserialize k hr n 0 e next (serialize hr (World.init n []))).toOption.isSome = true := by
-  cases hr <;> simp [serialize, World.init, serAlloc, Alloc.empty, deserialize, expectTup, elem, hasElem,
-    deArchs, deAllocParts, deAllocFields, deU64, deFreeSeq, deFree, fromParts, fillSlot,
-    deserialize.go, assertEnded, Except.toOption, pure, Except.pure]
+
+/-- **Error or fully valid world**, for every token stream. -/
+theorem C11_error_or_valid (k : Kinds) (hr : Bool) (n nres e next : Nat) (toks : List Tok) :
+    (∃ err, deserialize k hr n nres e next toks = .error err) ∨
+    (∃ w, deserialize k hr n nres e next toks = .ok w ∧ Inv w) := by
+  cases h : deserialize k hr n nres e next toks with
+  | error err => exact Or.inl ⟨err, rfl⟩
+  | ok w => exact Or.inr ⟨w, rfl, deserialize_inv h⟩
+
+/-- In an accepted world every identifier resolves to exactly one entity: a stored identifier is
+live at exactly the row that stores it, no identifier is stored twice, and `len()` is the number
+of stored identifiers. -/
+theorem C11_identifiers_resolve {k : Kinds} {hr : Bool} {n nres e next : Nat} {toks : List Tok}
+    {w : World} (h : deserialize k hr n nres e next toks = .ok w) :
+    (∀ a ∈ w.archs, ∀ (r : Nat) (id : Ident), a.ids[r]? = some id →
+      w.alloc.get id = some ⟨a.handle, r⟩) ∧
+    (∀ a ∈ w.archs, ∀ b ∈ w.archs, ∀ (r q : Nat) (id : Ident), a.ids[r]? = some id →
+      b.ids[q]? = some id → a.handle = b.handle ∧ r = q) ∧
+    w.stored.Nodup ∧ w.stored.length = w.len := by
+  have hi := deserialize_inv h
+  refine ⟨fun a ha r id hr' => hi.row_live ha hr', ?_, (len_counts_entities hi).1,
+    (len_counts_entities hi).2.1⟩
+  intro a ha b hb r q id h1 h2
+  exact hi.rows_injective ha hb h1 h2
+
+/-- **An accepted world never misbehaves later**: every admissible history continued on it runs
+to completion without reaching an unchecked access with a violated precondition, and keeps the
+invariant; it compares equal to itself and can be cloned. -/
+theorem C11_accepted_world_behaves {k : Kinds} {hr : Bool} {n nres e next : Nat} {toks : List Tok}
+    {w : World} (h : deserialize k hr n nres e next toks = .ok w) (ops : List Op)
+    (hwt : ∀ op ∈ ops, op.wt w.n) :
+    (∃ w', run w ops = .ok w' ∧ Inv w') ∧ World.eqWorld w w = .ok true ∧
+    (∀ e' next', ∃ c, w.clone e' next' = .ok c ∧ Inv c) := by
+  have hi := deserialize_inv h
+  obtain ⟨w', r1, r2, _⟩ := run_total hi ops hwt
+  refine ⟨⟨w', r1, r2⟩, eqWorld_refl hi, ?_⟩
+  intro e' next'
+  obtain ⟨c, c1, c2, _⟩ := clone_spec hi e' next'
+  exact ⟨c, c1, c2⟩
+
+/-- Every rejection reason of `from_serialized_parts` is a real rejection: slots named twice, out
+of range or never named cannot be accepted (the accepted allocator covers each slot exactly
+once). -/
+theorem C11_allocator_parts {length : Nat} {free : List Ident} {archs : List Arch} {al : Alloc}
+    (h : fromParts length free archs = .ok al) :
+    (free.map (·.index)).Nodup ∧
+    (∀ id l, (id, l) ∈ rowsOf archs → id.index ∉ free.map (·.index)) ∧
+    (∀ (i : Nat) (s : Slot), al.slots[i]? = some s →
+      (∃ f ∈ free, f.index = i ∧ s = ⟨f.gen, none⟩) ∨
+      (∃ id l, (id, l) ∈ rowsOf archs ∧ id.index = i ∧ s = ⟨id.gen, some l⟩)) :=
+  let p := fromParts_spec h
+  ⟨p.free_nodup, p.row_not_free, p.cover⟩
+
+/-- Non-vacuity (acceptance): the serialization of a reachable world is accepted, both encodings. -/
+example :
+    (match run (World.init 3 []) [.insert [1, 0] [⟨1, 11⟩, ⟨0, 10⟩], .insert [2] [⟨2, 20⟩], .remove ⟨0, 0⟩] with
+     | .ok w =>
+       ((deserialize ⟨['s', 's', 's'], []⟩ true 3 0 1 0 (serialize true w)).toOption.isSome,
+        (deserialize ⟨['s', 's', 's'], []⟩ false 3 0 1 0 (serialize false w)).toOption.isSome)
+     | .ub _ => (false, false)) = (true, true) := by decide +kernel
+
+/-- Non-vacuity (rejection): an identifier stored twice, a freed index that is also stored. -/
+example :
+    let dup : List Tok :=
+      [.tupB 3, .seqB (some 1), .newtype "Archetype", .tupB 3, .tupB 1, .u8 1, .tupE, .u64 2,
+       .tupB 2,
+         .tupB 2, .structB "Identifier" 2, .field "index", .u64 0, .field "generation", .u64 0, .structE, .u64 5, .tupE,
+         .tupB 2, .structB "Identifier" 2, .field "index", .u64 0, .field "generation", .u64 0, .structE, .u64 6, .tupE,
+       .tupE, .tupE, .seqE,
+       .structB "Allocator" 2, .field "length", .u64 1, .field "free", .seqB (some 0), .seqE, .structE,
+       .tupB 0, .tupE, .tupE]
+    (deserialize ⟨['s'], []⟩ true 1 0 1 0 dup).toOption.isSome = false := by decide +kernel
+
 end Brood
-#print axioms Brood.C11_empty_roundtrip
+
+#print axioms Brood.C11_error_or_valid
+#print axioms Brood.C11_identifiers_resolve
+#print axioms Brood.C11_accepted_world_behaves
+#print axioms Brood.C11_allocator_parts
